@@ -19,6 +19,10 @@ pub static PROGRESS: AtomicU64 = AtomicU64::new(0);
 
 fn main() {
     let args: Vec<String> = std::env::args().collect();
+    if args.len() == 4 && args[1] == "--stack-probe" {
+        props::c01::stack_probe_child(&args[2], args[3].parse().unwrap_or(65536));
+        return;
+    }
     if args.len() < 6 {
         eprintln!("usage: vharness <property> <quick|thorough> <seed> <driver> <out.json>");
         std::process::exit(2);
